@@ -352,6 +352,7 @@ class FormulaMaterializer(metaclass=FormulaMaterializerMeta):
         ensure_full_rank = set()
         factors: set[Factor] = set()
         transform_state = {}
+        encoder_state = {}
 
         def update_pooled_spec(model_spec: ModelSpec) -> None:
             output.add(model_spec.output)
@@ -363,6 +364,7 @@ class FormulaMaterializer(metaclass=FormulaMaterializerMeta):
             transform_state.update(
                 model_spec.transform_state
             )  # TODO: Check for consistency?
+            encoder_state.update(model_spec.encoder_state)
 
         model_specs._map(update_pooled_spec)
 
@@ -379,6 +381,7 @@ class FormulaMaterializer(metaclass=FormulaMaterializerMeta):
                 na_action=next(iter(na_action)),
                 output=next(iter(output)),
                 transform_state=transform_state,
+                encoder_state=encoder_state,
             ),
         )
 
